@@ -819,3 +819,5 @@ RULE += (' Added: arguments that floats cannot hold exactly (integers above 2**5
          'different argument variables.')
 RULE += (' Added: identity walk over all results of one MapBins element (edges, bins, contexts): '
          'no mutable object shared between two results.')
+
+RULE += (' Round 10: SplitIntoBins deep-copied / pickled after half of the flow (the copy gets the rest, the original other values); attributes of the argument variable set after construction.')
